@@ -235,6 +235,17 @@ func (c *Compiler) SetGlobalSymbolsIndex() {
 	)
 }
 
+// globalIndex returns the operand of an instruction that addresses a global:
+// the index of the global's name among the constants of this compilation. The
+// index kept in the symbol was taken from the constants of the compilation that
+// declared it; a symbol table that outlives those constants (the declaring
+// fragment of an Eval session failed to compile, or a symbol table is re-used
+// without its Constants) would otherwise address a constant that is not there.
+func (c *Compiler) globalIndex(symbol *Symbol) int {
+	symbol.Index = c.addConstant(String(symbol.Name))
+	return symbol.Index
+}
+
 // optimize runs the Optimizer and returns Optimizer object and error from Optimizer.
 // Note:If optimizer cannot run for some reason, a nil optimizer and errSkip
 // error will be returned.
